@@ -18,8 +18,8 @@ theorem pin_genObjects : genObjects = [
 /-- IntermediateCodeGen.genTableIndex (pysmi/codegen/intermediate.py) -/
 theorem pin_genTableIndex : genTableIndex = [
     "call:self.SMI_TYPES.get", "call:self.transOpers", "return:value", "loop", "if", "call:genFakeSyms",
-    "call:fakeStrlist.append", "call:fakeSyms.append", "call:self._importMap.get", "call:idxStrlist.append",
-    "return:value"] := by decide
+    "call:fakeStrlist.append", "call:fakeSyms.append", "call:self.transOpers", "call:self._importMap.get",
+    "call:idxStrlist.append", "return:value"] := by decide
 
 /-- IntermediateCodeGen.genCompliances (pysmi/codegen/intermediate.py) -/
 theorem pin_genCompliances : genCompliances = [
